@@ -120,6 +120,14 @@ def cases(tier, seed, rng):
                     batch.append(mline('mtag_feat', shape, dims, [], flat, None, [], lst([str(x) for x in sel]), rm,
                                        ' %s %s %s' % (ltype, lst([str(x) for x in fshape]), lst([d.tok() for d in fd]))))
     out.append(Case(batch, 'gen:mtag-without-positions'))
+    # requests in a unit that differs from the axis unit but scales to it, several positions to a request (exact dyadic values, built
+    # by the units family): every entry of the batch is rescaled, not only the first
+    from checks import C18
+    scaled = [l for l in C18.retrieval_lines(tier, rng) if l.startswith(('mtag_data ', 'mtag_data1 '))]
+    rng.shuffle(scaled)
+    scaled = scaled[: (400 if tier == 'quick' else 6000)]
+    for k in range(0, len(scaled), 200):
+        out.append(Case(scaled[k:k + 200], 'gen:mtag-scaled-units'))
     return out
 
 def nontrivial(case, tags):
